@@ -82,6 +82,7 @@ func (pq *PriQueue) Pop() IEntry {
 	// mu只锁entries
 	pq.mu.Unlock()
 	if needSignal {
+		verifGate("pop")
 		pq.tyrSignal()
 	}
 
@@ -110,6 +111,7 @@ func (pq *PriQueue) Push(e IEntry) error {
 		seq:   pq.curSeq,
 	})
 	pq.mu.Unlock()
+	verifGate("push")
 	pq.tyrSignal()
 
 	return nil
